@@ -313,6 +313,15 @@ def check_request(W, rec, rng):
         env["CONTENT_LENGTH"] = str(declared_len)
     if terminated:
         env["wsgi.input_terminated"] = True
+    if rng.random() < 0.12 and not lying:
+        # Transfer-Encoding: chunked next to a Content-Length (a proxy that left one of them in place): the length does not
+        # count (RFC 9112 6.3) - on a server that does not terminate its input there is then nothing that may be read
+        env["HTTP_TRANSFER_ENCODING"] = "chunked"
+        rec.observe("request_cases_with_chunked_next_to_a_length")
+        chunked_note = {"transfer_encoding": "chunked", "content_length_header": env.get("CONTENT_LENGTH")}
+        with_cl = False
+    else:
+        chunked_note = {}
 
     class R(Request):
         pass
@@ -321,7 +330,7 @@ def check_request(W, rec, rng):
     R.max_form_memory_size = memv
     R.max_form_parts = pl
     case = {"path": "Request", "kind": kind, "body_len": len(body), "parts": [[a, b.decode(), len(c)] for a, b, c in parts] if parts else None,
-            "mem": memv, "max_content_length": mcl, "max_parts": pl, "with_content_length": with_cl, "terminated": terminated, "short": k, "input": type(st).__name__}
+            "mem": memv, "max_content_length": mcl, "max_parts": pl, "with_content_length": with_cl, "terminated": terminated, "short": k, "input": type(st).__name__, **chunked_note}
     rec.case()
     rec.observe("request_cases")
     if kind == "urlencoded" and not with_cl and terminated:
